@@ -25,6 +25,7 @@ MANIFEST = {
             'Not decided: precedence/parenthesisation of the emitted text, anything data-dependent beyond the sqlite3 samples.',
 }
 
+from sqlalchemy.exc import SQLAlchemyError
 RENDER = 'mindsdb_sql.render.sqlalchemy_render'
 FN = f'{RENDER}:SqlalchemyRender.prepare_select,{RENDER}:SqlalchemyRender.to_expression'
 
@@ -87,7 +88,7 @@ def join_obligations(rep):
     for jt in kinds:
         oid = f'C06.join.{jt.replace(" ", "_")}'
         sql = f'select * from a {jt} b on a.id = b.id'
-        clause = 'rendered join = Ref(join_type) with operands in order (RIGHT may be rendered as LEFT with swapped operands)'
+        clause = 'rendered join = Ref(join_type) with operands in order (RIGHT may be rendered as LEFT with swapped operands), or the join kind is refused with NotImplementedError'
         ref = REF_JOIN.get(jt)
         if ref is None:
             continue
@@ -95,7 +96,10 @@ def join_obligations(rep):
             r, stmt, q = stmt_of(sql)
             kind, l, rr = join_kind_of(stmt)
         except Exception as e:
-            rep.failed(oid, 'pysym', f'rendering raises {type(e).__name__}: {e}'[:150], function=FN, clause=clause, replay=replay_exec(sql))
+            if isinstance(e, (NotImplementedError, SQLAlchemyError)):
+                rep.proved(oid, 'pysym', f'refused ({type(e).__name__}) rather than mistranslated', function=FN, clause=clause)
+            else:
+                rep.failed(oid, 'pysym', f'rendering raises {type(e).__name__}: {e}'[:150], function=FN, clause=clause, replay=replay_exec(sql))
             continue
         ok = (ref is not None) and ((kind == ref and (l, rr) == ('a', 'b')) or (ref == 'right' and kind == 'left' and (l, rr) == ('b', 'a')))
         if ok:
@@ -344,6 +348,150 @@ def operator_obligations(rep):
     rep.census['operand_kind_cases'] = n_ev
 
 
+# ------------------------------------------------------------------ list-shaped clauses keep every item, in order
+def _col_name(el):
+    import sqlalchemy as sa
+    while isinstance(el, (sa.sql.elements.UnaryExpression, sa.sql.elements.Label, sa.sql.elements.Grouping)):
+        el = el.element
+    return getattr(el, 'name', None) or str(el)
+
+
+def _mods(el):
+    import sqlalchemy as sa
+    out = set()
+    while isinstance(el, sa.sql.elements.UnaryExpression):
+        out.add(getattr(el.modifier, '__name__', str(el.modifier)))
+        el = el.element
+    return out - {'asc_op'}
+
+
+def _over_of(stmt):
+    for c_ in stmt._raw_columns:
+        while type(c_).__name__ != 'Over' and hasattr(c_, 'element'):
+            c_ = c_.element
+        if type(c_).__name__ == 'Over':
+            return c_
+    return None
+
+
+def list_obligations(rep):
+    """ORDER BY (select level and inside OVER), PARTITION BY, GROUP BY and the select list with 1..3 items: the rendered clause has the same
+    items in the same order, each with its own direction (finite case analysis on the SQLAlchemy element tree)"""
+    cols = ['b', 'c', 'id']
+    dirs = ['', ' DESC', ' ASC']
+    for n in (1, 2, 3):
+        for rot in range(n):
+            items = [(cols[(i + rot) % 3], dirs[(i + rot) % 3]) for i in range(n)]
+            want = [(c, {'desc_op'} if d == ' DESC' else set()) for c, d in items]
+            olist = ', '.join(c + d for c, d in items)
+            plain = ', '.join(c for c, _ in items)
+            cases = {
+                'order.select': (f'select a from t order by {olist}', lambda st: [(_col_name(e), _mods(e)) for e in st._order_by_clauses], want),
+                'order.window': (f'select id, sum(id) over (partition by a order by {olist}) from t', lambda st: [(_col_name(e), _mods(e)) for e in _over_of(st).order_by], want),
+                'partition.window': (f'select id, sum(id) over (partition by {plain} order by a) from t', lambda st: [(_col_name(e), set()) for e in _over_of(st).partition_by], [(c, set()) for c, _ in items]),
+                'group': (f'select count(*) from t group by {plain}', lambda st: [(_col_name(e), set()) for e in st._group_by_clauses], [(c, set()) for c, _ in items]),
+                'targets': (f'select {plain} from t', lambda st: [(_col_name(e), set()) for e in st._raw_columns], [(c, set()) for c, _ in items]),
+            }
+            for cname, (sql, read, exp) in cases.items():
+                oid = f'C06.list.{cname}.n{n}.r{rot}'
+                clause = 'every item of a list-shaped clause is rendered, in the written order, with its own sort direction'
+                try:
+                    r, stmt, q = stmt_of(sql)
+                    got = read(stmt)
+                except Exception as e:
+                    if isinstance(e, (NotImplementedError, SQLAlchemyError)):
+                        rep.proved(oid, 'pysym', f'refused ({type(e).__name__}) rather than mistranslated', function=FN, clause=clause)
+                    else:
+                        rep.failed(oid, 'pysym', f'{type(e).__name__}: {e}'[:150], function=FN, clause=clause, replay=replay_exec(sql))
+                    continue
+                if got == exp:
+                    rep.proved(oid, 'pysym', f'{len(got)} item(s) in order', function=FN, clause=clause)
+                else:
+                    rep.failed(oid, 'pysym', f'`{sql}`: rendered items {got}, expected {exp}', function=FN, clause=clause, replay=replay_exec(sql))
+
+
+# ------------------------------------------------------------------ DML / DDL: the statement keeps its row restriction, its assignments and its rows
+def _get_query(sql, dialect='sqlite'):
+    from mindsdb_sql import parse_sql
+    from mindsdb_sql.render.sqlalchemy_render import SqlalchemyRender
+    q = parse_sql(sql)
+    r = SqlalchemyRender(dialect)
+    stmt, params = r.get_query(q, with_params=False)
+    return stmt, q
+
+
+def dml_obligations(rep):
+    FN2 = f'{RENDER}:SqlalchemyRender.prepare_update,{RENDER}:SqlalchemyRender.prepare_delete,{RENDER}:SqlalchemyRender.prepare_insert'
+    cases = []
+    for where in (None, 'a = 2', 'a = 2 AND b > 1'):
+        w = f' WHERE {where}' if where else ''
+        cases.append((f'update.{"where" + str(where.count("AND") + 1) if where else "nowhere"}', f'UPDATE t SET b = 0, c = 1{w}', where, ['b', 'c']))
+        cases.append((f'delete.{"where" + str(where.count("AND") + 1) if where else "nowhere"}', f'DELETE FROM t{w}', where, None))
+    for tag, sql, where, setcols in cases:
+        oid = f'C06.dml.{tag}'
+        clause = 'UPDATE / DELETE keep their WHERE clause (same comparison tree) and UPDATE assigns exactly the written columns'
+        try:
+            stmt, q = _get_query(sql)
+        except Exception as e:
+            if isinstance(e, (NotImplementedError, SQLAlchemyError)):
+                rep.proved(oid, 'pysym', f'refused ({type(e).__name__}) rather than mistranslated', function=FN2, clause=clause)
+            else:
+                rep.failed(oid, 'pysym', f'{type(e).__name__}: {e}'[:150], function=FN2, clause=clause, replay=replay_exec_dml(sql))
+            continue
+        crit = list(getattr(stmt, '_where_criteria', ()) or ())
+        problems = []
+        if where is None and crit:
+            problems.append(f'a WHERE clause {[str(c) for c in crit]} appears')
+        if where is not None:
+            if not crit:
+                problems.append('the WHERE clause is dropped: every row is affected')
+            else:
+                txt = ' AND '.join(str(c.compile(compile_kwargs={'literal_binds': True})) for c in crit)
+                if ' '.join(txt.split()) != where:
+                    problems.append(f'WHERE is rendered as `{txt}`')
+        if setcols is not None:
+            vals = getattr(stmt, '_values', None) or {}
+            got = sorted(getattr(k, 'name', str(k)) for k in vals)
+            if got != sorted(setcols):
+                problems.append(f'assigned columns {got}, written {sorted(setcols)}')
+        if problems:
+            rep.failed(oid, 'pysym', f'`{sql}`: ' + '; '.join(problems), function=FN2, clause=clause, replay=replay_exec_dml(sql))
+        else:
+            rep.proved(oid, 'pysym', f'where={"kept" if where else "absent"}' + (f', sets {setcols}' if setcols else ''), function=FN2, clause=clause)
+
+
+DML_EXEC = [
+    'UPDATE t SET b = 0 WHERE a = 2', 'UPDATE t SET b = 0, c = \'k\' WHERE a = 2 AND id > 2', 'UPDATE t SET b = b + 1', 'UPDATE t SET b = a WHERE c IS NULL',
+    'DELETE FROM t WHERE a = 2', 'DELETE FROM t WHERE a = 2 OR b IS NULL', 'DELETE FROM t', 'DELETE FROM t WHERE id IN (SELECT id FROM u)',
+    "INSERT INTO t (id, a, b, c) VALUES (10, 1, 2, 'n')", "INSERT INTO t (id, c) VALUES (10, 'n'), (11, 'it''s')", 'INSERT INTO t (id, a) SELECT id, a FROM u',
+    'CREATE TABLE z (id int, name varchar)', 'DROP TABLE u',
+]
+
+
+def _dump(con):
+    out = {}
+    for (name,) in con.execute("SELECT name FROM sqlite_master WHERE type = 'table' ORDER BY name").fetchall():
+        cols = [r[1] for r in con.execute(f'PRAGMA table_info({name})').fetchall()]
+        out[name] = (cols, sorted(map(repr, con.execute(f'SELECT * FROM {name}').fetchall())))
+    return out
+
+
+def replay_exec_dml(sql):
+    try:
+        con1, con2 = sqlite_env(), sqlite_env()
+        con1.execute(sql)
+        txt = text_of(sql, 'sqlite')
+        con2.execute(txt)
+        want, got = _dump(con1), _dump(con2)
+    except (NotImplementedError, SQLAlchemyError) as e:
+        return {'input': sql, 'dialect': 'mindsdb', 'fires': False, 'observed': f'refused: {type(e).__name__}'}
+    except Exception as e:
+        return {'input': sql, 'dialect': 'mindsdb', 'fires': False, 'observed': f'cannot execute: {type(e).__name__}: {e}'[:120]}
+    diff = {k: (want.get(k), got.get(k)) for k in set(want) | set(got) if want.get(k) != got.get(k)}
+    return {'input': sql, 'dialect': 'mindsdb', 'fires': bool(diff), 'observed': f'rendered `{" ".join(txt.split())}` leaves {({k: v[1] for k, v in diff.items()})}'[:300],
+            'expected': f'{({k: v[0] for k, v in diff.items()})}'[:200]}
+
+
 # ------------------------------------------------------------------ differential execution
 def sqlite_env():
     con = sqlite3.connect(':memory:')
@@ -396,8 +544,13 @@ def bounded(rep, tier):
         r = replay_exec(sql)
         if r['fires']:
             rep.add_bounded(Bounded(f'C06.bounded.exec.q{i:02d}', False, sql, r['observed'], r.get('expected'), bound=f'{len(EXEC_QUERIES)} queries'))
+    for i, sql in enumerate(DML_EXEC):
+        n += 1
+        r = replay_exec_dml(sql)
+        if r['fires']:
+            rep.add_bounded(Bounded(f'C06.bounded.exec.dml{i:02d}', False, sql, r['observed'], r.get('expected'), bound=f'{len(DML_EXEC)} statements'))
     rep.bounded_evals = n
-    rep.bounded_rule = 'queries over join kinds, ordering with NULLS, set operations, grouping, expressions, CASE, windows, sub-queries, CTE: original text vs sqlite rendering executed on sqlite3 (4 small tables with NULLs and duplicates); ordered comparison when the query orders'
+    rep.bounded_rule = 'UPDATE / DELETE / INSERT / CREATE TABLE / DROP TABLE: original vs sqlite rendering executed on two copies of the database, all table contents compared; queries over join kinds, ordering with NULLS, set operations, grouping, expressions, CASE, windows, sub-queries, CTE: original text vs sqlite rendering executed on sqlite3 (4 small tables with NULLs and duplicates); ordered comparison when the query orders'
 
 
 def stateless_obligation(rep, prop):
@@ -446,6 +599,8 @@ def check(rep, tier):
     rep.trust('SQLAlchemy', 'sqlite3 3.40 as reference engine')
     join_obligations(rep)
     order_obligations(rep)
+    list_obligations(rep)
+    dml_obligations(rep)
     setop_obligations(rep)
     operator_obligations(rep)
     bounded(rep, tier)
